@@ -941,6 +941,7 @@ func (p *ValidateTxAndPayClaimInvoiceAction) Execute(services *SwapServices, swa
 		}
 		interval = 1 * time.Second
 	}
+	interval, retryTime = verifPayTiming(interval, retryTime)
 
 	ticker := time.NewTicker(interval)
 	defer ticker.Stop()
